@@ -1095,8 +1095,17 @@ void ConstrainedFDLayout::moveTo(const vpsc::Dim dim, Position& target) {
     updateCompoundConstraints(dim, ccs);
     if(unsatisfiable.size()==2) {
         // The positions set here are the ones the caller sees, so any
-        // constraint this projection had to drop must be reported too.
-        checkUnsatisfiable(cs,unsatisfiable[dim]);
+        // of the user's compound constraints this projection had to drop
+        // must be reported too.  (Internally generated constraints, e.g.
+        // for non-overlap and cluster containment, are freed at the end
+        // of run() and must not be handed out.)
+        for(vpsc::Constraints::const_iterator c=cs.begin();c!=cs.end();++c) {
+            if((*c)->unsatisfiable && (find(ccs.begin(), ccs.end(),
+                    (CompoundConstraint *) (*c)->creator) != ccs.end())) {
+                unsatisfiable[dim]->push_back(
+                        new UnsatisfiableConstraintInfo(*c));
+            }
+        }
     }
     for_each(vs.begin(),vs.end(),delete_object());
     for_each(cs.begin(),cs.end(),delete_object());
